@@ -6,6 +6,16 @@ import os
 ROOT = os.path.dirname(os.path.dirname(os.path.abspath(__file__)))
 
 CHECKS = {
+    "C01": dict(
+        fuzz=True,
+        technique="coverage-guided fuzzing (libFuzzer, ASan/UBSan, guard pages) + Hypothesis-generated texts with an exhaustive prefix/edit sweep",
+        engine="libFuzzer fz_parse + hypothesis/ctypes shim",
+        text="Generated-input search for memory-safety and cleanliness of all four parse entry points: byte-level fuzzing with the input "
+             "flush against a PROT_NONE page or in an exact-size heap block, every prefix and every single-byte structural edit of generated "
+             "valid texts, nesting shapes up to 10^6; every result must be NULL or a tree that walks clean, prints and deletes to an empty "
+             "allocation ledger. Exploration: no report on anything generated.",
+        note="Trusted: ASan/UBSan/guard pages as detectors, the ledger allocator. Termination is checked by libFuzzer's per-input timeout only. x86-64 glibc only.",
+        ref="3 C01"),
     "C02": dict(
         technique="property-based testing (Hypothesis): grammar-generated RFC 8259 texts vs expected dumps from a Python value model",
         text="Generated-input search: every generated valid text must be accepted by all four entry points (9 entry/flag/"
@@ -14,6 +24,48 @@ CHECKS = {
              "Exploration, not proof: holds on everything generated.",
         note="Trusted: Python float()/UTF-8 codec as the reference decoder, the native dumper, ASan/UBSan. Only the C locale exists here.",
         ref="3 C02"),
+    "C03": dict(
+        fuzz=True,
+        technique="differential testing against an independent dialect recogniser: class-targeted corruptions (Hypothesis), exhaustive token-sequence enumeration, libFuzzer",
+        engine="hypothesis/ctypes shim + C enumeration + libFuzzer fz_parse",
+        text="Every text the independent recogniser classifies as outside the dialect (RFC 8259 plus the four permitted leniencies, read "
+             "generously) must be rejected by every entry point with an empty allocation ledger; strict texts must be accepted. Inputs: one "
+             "generator per must-reject class of the statement, single-edit corruptions, ALL token sequences up to length 5/7 (exhaustive to "
+             "that bound), coverage-guided fuzzing, nesting to 10^6. Exploration (token space exhaustive to the bound).",
+        note="Trusted: native/dialect.c (written from the RFC, cross-checked against Python json in C05), ledger. Lenient/undecided texts get no verdict.",
+        ref="3 C03"),
+    "C04": dict(
+        fuzz=True,
+        technique="property-based round-trip testing (Hypothesis) over built and parsed trees x all print variants x both allocator configurations; dense number sweep; libFuzzer fixed-point oracle",
+        engine="hypothesis/ctypes shim + libFuzzer fz_parse",
+        text="Round-trip and fixed-point relations checked on generated trees (arbitrary string bytes, doubles from boundary pools incl. the "
+             "top of the range) for Print/PrintUnformatted/PrintBuffered(14 prebuffer sizes)/PrintPreallocated under custom hooks and the "
+             "default allocator; plus single-number sweeps in C and the fixed point on fuzzer-made trees. Exploration.",
+        note="Trusted: the dumper, Python arithmetic for the tolerance rule. Only '.' as decimal point (C locale).",
+        ref="3 C04"),
+    "C05": dict(
+        technique="property-based testing (Hypothesis) with two independent strict parsers (dialect recogniser, Python json) and a metamorphic formatted/unformatted relation",
+        text="Every printed text must be classified STRICT by the recogniser and accepted by Python's strict json, decode to the model value "
+             "(non-finite -> null), agree across all print variants/prebuffers/allocators, satisfy strip(formatted) == unformatted, and "
+             "print int-range integers as plain decimal. Exploration.",
+        note="Trusted: Python json as reference decoder. Locale other than C cannot be exercised in this sandbox.",
+        ref="3 C05"),
+    "C09": dict(
+        technique="property-based testing (Hypothesis trees) with an exhaustive sweep over every buffer length, guard pages + ASan redzones + canaries",
+        text="For each generated tree and format, every n in [0, L+16] is tried in an exact-size heap block and flush against a PROT_NONE "
+             "page; return value, buffer contents, the five-byte margin and monotonicity are checked against the allocating printer's text. "
+             "Exhaustive in n per tree, exploration over trees.",
+        note="Trusted: ASan redzones, page protection, canaries.",
+        ref="3 C09"),
+    "C10": dict(
+        fuzz=True,
+        technique="property-based testing (Hypothesis framings of valid/corrupted texts) + libFuzzer, with the value end computed by an independent recogniser",
+        engine="hypothesis/ctypes shim + libFuzzer fz_parse",
+        text="Relations between result, return_parse_end, cJSON_GetErrorPtr and the buffer are checked for every generated framing (27 tail "
+             "shapes incl. terminators, garbage, bytes after the terminator; empty buffers) and for fuzz inputs; the termination verdict is "
+             "derived from an independently computed end of value. Exploration.",
+        note="Tails with bytes after an in-buffer terminator get no accept/reject verdict (statement silent). Trusted: dialect.c for the value end.",
+        ref="3 C10"),
 }
 
 PENDING = {
